@@ -536,9 +536,73 @@ def build_inseg(ch, tier):
 
 # ---------------------------------------------------------------------------
 
+def run_far(ctx, case):
+    """contents, strings, segments and address mapping of a file whose sections / segments / header table sit at offsets at and beyond
+    2**31, 2**32 ... (sparse stream: only the named byte ranges exist)"""
+    from vf.enc.sparse import sparse_elf
+    L = lib()
+    cls, le, base = case['cls'], case['le'], case['base']
+    raw = bytes(range(1, 200))
+    strs = b'\0alpha\0' + b'b' * 70 + b'\0tail\0'
+    zpayload = b'far compressed payload ' * 9
+    zsec = W.enc_chdr(cls, le, 1, len(zpayload), 4) + zlib.compress(zpayload, 6)
+    interp = b'/lib/ld-far.so.1\0'
+    va = 0x400000
+    secs = [{'name': '.raw', 'sh_type': 1, 'sh_flags': 2, 'sh_addr': va, 'offset': base, 'size': len(raw), 'chunks': {0: raw}},
+            {'name': '.strs', 'sh_type': 3, 'sh_flags': 2, 'sh_addr': va + 0x1000, 'offset': base + 0x1000, 'size': len(strs), 'chunks': {0: strs}},
+            {'name': '.bss', 'sh_type': 8, 'sh_flags': 3, 'offset': base + 0x2000, 'size': 0x1234},
+            {'name': '.zdata', 'sh_type': 1, 'sh_flags': 0x800, 'offset': base + 0x3000, 'size': len(zsec), 'chunks': {0: zsec}},
+            {'name': '.interp', 'sh_type': 1, 'offset': base + 0x4000, 'size': len(interp), 'chunks': {0: interp}}]
+    segs = [{'p_type': 1, 'p_flags': 5, 'p_offset': base, 'p_vaddr': va, 'p_paddr': va, 'p_filesz': len(raw), 'p_memsz': len(raw) + 0x100, 'p_align': 1},
+            {'p_type': 3, 'p_flags': 4, 'p_offset': base + 0x4000, 'p_vaddr': va + 0x4000, 'p_filesz': len(interp), 'p_memsz': len(interp), 'p_align': 1},
+            {'p_type': 1, 'p_flags': 4, 'p_offset': base + 0x1000, 'p_vaddr': va + 0x1000, 'p_filesz': len(strs), 'p_memsz': len(strs), 'p_align': 1}]
+    stream, _h = sparse_elf(cls, le, secs, segments=segs, shoff=(base + 0x8000) if case.get('far_table') else None)
+    tag = 'far|base=%#x' % base
+    try:
+        ef = L['ELFFile'](stream)
+        names = [s_.name for s_ in ef.iter_sections()]
+        if names != ['', '.raw', '.strs', '.bss', '.zdata', '.interp', '.shstrtab']:
+            ctx.fail(tag + '|sections', 'names %r' % (names,), case)
+        else:
+            if ef.get_section(1).data() != raw:
+                ctx.fail(tag + '|data|raw', 'section at %#x' % base, case)
+            st = ef.get_section(2)
+            for off, want in ((0, ''), (1, 'alpha'), (3, 'pha'), (7, 'b' * 70), (78, 'tail'), (len(strs) - 1, '')):
+                if st.get_string(off) != want:
+                    ctx.fail(tag + '|string', 'offset %d: expected %r got %r' % (off, want, st.get_string(off)), case)
+            b = ef.get_section(3)
+            if b.data() != b'\0' * 0x1234 or b.data_size != 0x1234:
+                ctx.fail(tag + '|data|nobits', 'size %r' % b.data_size, case)
+            z = ef.get_section(4)
+            if not z.compressed or z.data() != zpayload or z.data_size != len(zpayload) or z.data_alignment != 4:
+                ctx.fail(tag + '|data|compressed', 'size %r alignment %r' % (z.data_size, z.data_alignment), case)
+            if ef.get_segment(0).data() != raw:
+                ctx.fail(tag + '|segment-data', 'PT_LOAD at %#x' % base, case)
+            it = ef.get_segment(1)
+            if type(it).__name__ != 'InterpSegment' or it.get_interp_name() != interp[:-1].decode():
+                ctx.fail(tag + '|interp', repr(it), case)
+            for a, n, want in ((va, 1, [base]), (va + 10, len(raw) - 10, [base + 10]), (va + len(raw), 1, []), (va + 0x1000 + 5, 3, [base + 0x1005]),
+                               (va + 0x4000, 2, []), (va - 1, 2, [])):
+                got = list(ef.address_offsets(a, n))
+                if got != want:
+                    ctx.fail(tag + '|address_offsets', 'range [%#x,+%d): expected %r got %r' % (a, n, want, got), case)
+            for gi in range(3):
+                want = [bool(REF.in_segment_strict({'sh_type': x['sh_type'], 'sh_flags': x.get('sh_flags', 0), 'sh_addr': x.get('sh_addr', 0),
+                                                    'sh_offset': x['offset'], 'sh_size': x['size']}, segs[gi], 64)) for x in secs]
+                got = [ef.get_segment(gi).section_in_segment(ef.get_section(i)) for i in range(1, 6)]
+                if got != want:
+                    ctx.fail(tag + '|section_in_segment', 'segment %d: expected %r got %r' % (gi, want, got), case)
+    except Exception as e:  # noqa
+        ctx.fail_exc(tag, e, case)
+    ctx.count('far.files')
+    ctx.case(('far', cls, le, base, bool(case.get('far_table'))), True, dict(case))
+
+
 def run_case(ctx, case):
     k = case['k']
-    if k == 'data':
+    if k == 'far':
+        run_far(ctx, case)
+    elif k == 'data':
         run_data(ctx, case)
     elif k == 'addr':
         run_addr(ctx, case)
@@ -601,6 +665,11 @@ def sweep(tier):
                     s2 = [dict(s) for s in secs]
                     s2[3] = dict(s2[3], variant=variant, **extra)
                     cases.append({'k': 'data', 'model': dict(m, sections=s2)})
+    # placement at and beyond 2**31 / 2**32 / 2**40 / 2**62 (sparse files)
+    for k, (cls, base) in enumerate(((32, 0x7ffffff0), (32, 0x80000000), (32, 0xfffe0000), (64, 0x7ffffff0), (64, 0x80000000), (64, 0xfffffff0),
+                                     (64, 1 << 32), (64, (1 << 40) + 8), (64, 1 << 62))):
+        for far_table in (False, True):
+            cases.append({'k': 'far', 'cls': cls, 'le': bool((k + far_table) % 2), 'base': base, 'far_table': far_table})
     # extremely redundant large payloads: deflate expands up to 1032:1, so a few KiB of stream carry several MiB (every zlib level)
     for k, (n, level) in enumerate(((4 << 20, 9), (4 << 20, 1), (3 << 20, 6), (8 << 20, 4)) if tier == 'quick' else
                                    ((4 << 20, 9), (4 << 20, 1), (3 << 20, 6), (8 << 20, 4), (32 << 20, 9), (20 << 20, 6), (5 << 20, 0))):
@@ -614,7 +683,7 @@ def sweep(tier):
 
 def floors(ctx):
     c = ctx.counters
-    need = ['sec.raw', 'sec.nobits', 'sec.z.ok', 'sec.z.short', 'sec.z.long', 'sec.z.trunc', 'sec.z.badtype', 'str.query.chunk+',
+    need = ['far.files', 'sec.raw', 'sec.nobits', 'sec.z.ok', 'sec.z.short', 'sec.z.long', 'sec.z.trunc', 'sec.z.badtype', 'str.query.chunk+',
             'seg.interp', 'seg.data', 'addr.query.boundary', 'addr.query.hit', 'addr.query.miss', 'addr.query.multi', 'inseg.pairs.boundary']
     out = ['no case of class ' + k for k in need if c[k] == 0]
     if c['inseg.pairs'] < 5000:
